@@ -205,7 +205,7 @@ ARMED = [False]     # True only while run_real() executes the handler
 
 
 def _seen(name, v):
-    if ARMED[0] and not isinstance(v, Val):
+    if ARMED[0] and not issubclass(type(v), Val):      # type(), not isinstance(): that would read v.__class__
         v = Foreign(name, v)
     LAST["val"] = v
     return v
@@ -559,8 +559,11 @@ def run_real(conn, obj, req, name):
             other = object()
             res = conn._handle_cmp(obj, other, name)
             v = LAST.get("val")
-            if not (type(res) is tuple and len(res) == 2 and res[1] is v
-                    and v.got in (((obj, other), {}), ((other,), {}))):
+            got_args = v.got[0] if issubclass(type(v), Val) and v.got else None      # compare by identity: `==` would call
+            called_ok = got_args is not None and not v.got[1] and (             # the canary's own __eq__
+                (len(got_args) == 2 and got_args[0] is obj and got_args[1] is other)
+                or (len(got_args) == 1 and got_args[0] is other))
+            if not (type(res) is tuple and len(res) == 2 and res[1] is v and called_ok):
                 note = " !passthrough: cmp did not call <op>(obj, other) / the hook's bound <op>(other)"
         else:
             raise ValueError(req)
@@ -614,7 +617,19 @@ def flatten_model(line):
     return "".join(x + " " for x in flat) + "-> " + ("invoked" if out.startswith("ok ") else out)
 
 
+_CANON = {}
+
+
 def canon(line):
+    r = _CANON.get(line)
+    if r is None:
+        if len(_CANON) > 200000:
+            _CANON.clear()
+        r = _CANON[line] = _canon(line)
+    return r
+
+
+def _canon(line):
     """the compared form of an output line: `hasattr` probes as a SET (their order and repetition are not part of the
     property: a rewrite that probes the name before the twin is harmless), everything else in order.  A read counts as
     the ACCESS (kept in place) when a call follows it, when a hook call precedes it, or when it is the last event of
@@ -729,7 +744,10 @@ def build_cmp_object(kind, has, name, twin):
         return view, ["policy obj 1 plain " + slist(dir_names(fill(Plain(), 1, names))),
                       "policy obj 0 restricted 1 %s N %s" % (slist([name]), slist(vn)),
                       "policy obj 3 plain " + slist(tnames)]
-    ns = dict((n, Val(n)) for n in names)
+    # names the interpreter itself uses on the class are not overridden with canary values (the class has them anyway,
+    # by inheritance; reads of them are still logged and wrapped)
+    ns = dict((n, Val(n)) for n in names if n not in ("__getattribute__", "__setattr__", "__delattr__", "__init__",
+                                                      "__new__", "__class__", "__dict__"))
     ns["_permit"] = name
     bases = (CanaryBase,)
     inst_hook = None
